@@ -26,6 +26,8 @@ ASSUMPTIONS = [
     "To-end-of-stream ([EOF]) types: only bytes before p are re-randomised in the twin (their extent is the end of input).",
     "Reference = the library's own parse of image[p:] from offset 0 in a fresh BytesIO (differential oracle).",
     "Pointer dereference is not exercised here (C16).",
+    "Across input kinds / call forms field VALUES are compared (not the _sizes bookkeeping nor the scalar wrapper class): "
+    "T(b'x') on a structure whose only field is a char of exactly that size is a documented value-construction shortcut.",
 ]
 REAL = ["dissect.cstruct readers (compiled and interpreted)", "io.BytesIO"]
 STUBS = ["SimStream (logging seekable stream; injects one read error for failing parses)"]
@@ -55,6 +57,19 @@ def gen_case(rng: random.Random, tier: str):
             "pre": rng.randint(0, 3) * unit if rng.random() < 0.3 else rng.randint(0, 40) // unit * unit,
             "gap": rng.randint(0, 24) // unit * unit, "suf": rng.randint(0, 24), "kind": rng.choice(["bytesio", "sim"]),
             "ops": ops, "twin_seed": rng.getrandbits(32)}
+
+
+def _values_only(o):
+    """Observation without recorded sizes and without the scalar wrapper type names: T(b"x") on a structure whose only
+    field is a char of that size constructs the value directly (documented shortcut) - same field values, plain bytes."""
+    if isinstance(o, list) and o:
+        if o[0] == "S":
+            return ["S", o[1], [[n, _values_only(v)] for n, v in o[2]]]
+        if o[0] in ("i", "f", "b", "s"):
+            return [o[0], o[2]]
+        if o[0] == "L":
+            return ["L", [_values_only(e) for e in o[2]]]
+    return o
 
 
 def _ref(root, image, p):
@@ -138,6 +153,9 @@ def run_case(case, stats):
             hist.append("read")
         elif k == "parse":
             p = stream.tell()
+            if p % unit:
+                stats.count("probe.parse_skipped_unaligned_position")
+                continue
             exp = _ref(root, image, p)
             try:
                 v = _do_parse(cs, root, name, stream, op["form"])
@@ -160,6 +178,8 @@ def run_case(case, stats):
         elif k == "parse_fault":
             # a parse that dies half-way on an injected read error, then the history continues on a clean stream at the same place
             p = stream.tell()
+            if p % unit:
+                continue
             st = SimStream(image, pos=p, faults=[{"kind": "raise_read", "i": op["i"], "e": op["e"]}])
             try:
                 root(st)
@@ -193,7 +213,7 @@ def run_case(case, stats):
                             f"parse at p={p} consumed {n}; with bytes outside [p,p+n) re-randomised got {got2} instead of {got}", p=p)
         # ---- input kinds and call forms on image[p:]
         chunk = image[p:]
-        exp = ("val", got[1])
+        exp = ("val", _values_only(got[1]))
         for kind, obj in (("bytes", chunk), ("bytearray", bytearray(chunk)), ("memoryview", memoryview(chunk))):
             for form in ("call", "read", "reads", "cs.read"):
                 try:
@@ -205,7 +225,7 @@ def run_case(case, stats):
                         v = root.reads(obj)
                     else:
                         v = cs.read(name, obj)
-                    g2 = ("val", observe(v))
+                    g2 = ("val", _values_only(observe(v)))
                 except Exception as e:  # noqa: BLE001
                     g2 = ("exc", type(e).__name__)
                 stats.count("evaluations")
